@@ -147,7 +147,11 @@ CHECKS = {
     "C11": dict(
         text="Lean theorems (any field, every parameter in the open domain, every continuation): flip_enum exact (value and derivative); REINFORCE "
              "and measure-valued flip estimators unbiased; REINFORCE over any finite distribution; estimators affine in the continuation (tower "
-             "property); a mixed two-site composition unbiased with cross terms. Tie: expectation programs with 1-3 sites run on the real code with "
+             "property); a mixed two-site composition unbiased with cross terms; GENERAL composition: for every discrete ADEV program (outcome tree: any number "
+             "of sites, any mix of flip_enum / flip_enum_parallel / flip_reinforce / flip_mvd / categorical_enum_parallel / finite REINFORCE, later parameters "
+             "and control flow depending on earlier outcomes) the interpreter's dual averages to the exact value and exact derivative (induction on the program, "
+             "MVD modelled with its second, forward-sampled continuation run); categorical/flip parallel enumeration exact; softmax duals normalised; truncated "
+             "geometric REINFORCE unbiased. Tie: expectation programs with 1-3 sites run on the real code with "
              "the primitives' internal Bernoulli sampler replaced by an oracle that exhaustively explores every internal outcome (weights = the "
              "probabilities actually used): weighted mean of value and tangent vs closed forms; per-outcome duals vs the Lean model; seeded "
              "Monte-Carlo for programs whose continuations sample on their own; categorical/parallel enumeration, batched sites, pathwise identity.",
@@ -188,11 +192,13 @@ CHECKS = {
              "covariance, ...) is non-negative and normalises to 1 over its support for every parameter value in the documented domain (any "
              "dimension for categorical / multinomial / dirichlet / multivariate_normal), plus parameter-pinning lemmas (gamma(a,r)(x) = r*gamma(a,1)(r x), "
              "chi2(k) = gamma(k/2,1/2), half_normal = 2*normal on x>=0, log_normal via log, student_t(1) = cauchy, mvn(diag sigma^2) = product of normals, ...). "
-             "Tie: for all 24 distributions logpdf on parameter x support grids vs closed forms of the documented parameterisation / scipy, numeric "
+             "Each density is also given as a closed term of an executable expression AST (Model/DistExpr.lean) whose real denotation is PROVED equal to that density "
+             "(24 theorems C13_spec_<name>_denotes; vector distributions at fixed dimension 3 / 2). Tie: the compiled model driver prints those terms, the "
+             "harness evaluates them in float64 and compares with dist.logpdf on parameter x support grids for all 24 distributions; also vs scipy, numeric "
              "normalisation, seeded draws (scalar, sample_shape, vectorised) vs reference CDF/PMF (KS / chi-square, alpha=1e-6), shapes and dtypes, "
              "extreme logit spreads, user-wrapped tfp_distribution / distribution.",
-        note=TB + "C13 (partial): that dist.logpdf equals the Lean closed form is established numerically by the correspondence run (float64 reference "
-             "formulas), and sampler<->density agreement is statistical evidence; TFP's log_prob and samplers are trusted.",
+        note=TB + "C13 (partial): that dist.logpdf equals the Lean spec term is established numerically on grids by the correspondence run (float64 evaluation of "
+             "the printed term, Mathlib totalisations reproduced), and sampler<->density agreement is statistical evidence; TFP's log_prob and samplers are trusted.",
         technique="Lean 4 + Mathlib proof (normalisation of the spec densities, all 24) + differential/statistical correspondence for all 24 distributions",
         design="§3 C13"),
 }
